@@ -64,6 +64,10 @@ fn exercise(r: &mut Rep, other: &Rep) {
     let _ = m.stage_full_snapshot();
     let _ = m.read(None);
     let _ = m.replay_stage(&st);
+    // the exported stage is also replayed on a replica that knows none of the objects
+    let fresh = Rep::new();
+    let _ = fresh.m.replay_stage(&st);
+    let _ = fresh.m.read(None);
     let _ = m.refresh_is_refused_or_ok();
 }
 
